@@ -23,15 +23,24 @@ func TestSweep(t *testing.T) {
 			for K := 0; K <= maxK; K++ {
 				for s := -2; s <= K+2; s++ {
 					for e := -2; e <= K+2; e++ {
-						first := Step{s, e}
+						first := Step{S: s, E: e}
 						Oracle.One(t, env, rec, "sweep", &Case{T: tn, C: C, Kr: K, Steps: []Step{first}})
 						if !(0 <= s && s <= e && e <= K) {
 							continue
 						}
 						cp := K - s
+						if C >= 2 { // the first-level window gets 1 or C+1 single samples, then every second-level slice
+							for _, pre := range []int{1, C + 1} {
+								for s2 := 0; s2 <= cp; s2++ {
+									for e2 := s2; e2 <= cp; e2++ {
+										Oracle.One(t, env, rec, "sweep", &Case{T: tn, C: C, Kr: K, Steps: []Step{first, {S: s2, E: e2, Pre: pre}}})
+									}
+								}
+							}
+						}
 						for s2 := -2; s2 <= cp+2; s2++ {
 							for e2 := -2; e2 <= cp+2; e2++ {
-								Oracle.One(t, env, rec, "sweep", &Case{T: tn, C: C, Kr: K, Steps: []Step{first, {s2, e2}}})
+								Oracle.One(t, env, rec, "sweep", &Case{T: tn, C: C, Kr: K, Steps: []Step{first, {S: s2, E: e2}}})
 							}
 						}
 					}
